@@ -3,6 +3,7 @@
   Property theorems only.
 -/
 import Pongo.Lemmas.Eval
+import Pongo.Gen.FilterFacts
 
 namespace Pongo.C10
 
@@ -103,6 +104,10 @@ theorem super_renders_next_less_derived (fuel fid : Nat) (name : Bytes) (lvl : N
   have hl' : (lvl == 0) = false := by simpa using hl
   simp only [callSuper, getFrame, hl', Bool.false_eq_true, if_false, EStateM.run, bind, EStateM.bind, get, getThe,
     MonadStateOf.get, EStateM.get, hfr, pure, EStateM.pure]
+
+/-- the cap on blocks rendering inside each other (the guard against blocks that contain each
+    other through inheritance) leaves room for a thousand levels of honest nesting (regenerated) -/
+theorem gen_block_depth_cap : 1000 ≤ Gen.maxBlockDepth := by decide
 
 /-! ### non-vacuity -/
 example : (blockWrappers #[
